@@ -574,6 +574,11 @@ def case_thermal(case, ctx, pym):
     h = _sizes(rng, case["h"])                      # in 2D h[2] is the thickness: arbitrary here
     E, nu = _material(rng, case["nu"])
     alpha = float(10.0 ** rng.uniform(-6, 0))
+    u_ = rng.random()
+    if u_ < 0.08:
+        alpha = 0.0          # a non-expanding phase (the boundary value of the parameter range): no load at all
+    elif u_ < 0.2:
+        alpha = -alpha       # materials that contract on heating
     dom = _domain(pym, n, h)
     pos, _ = _geometry(dom)
     nel, nnod = dom.nel, dom.nnodes
@@ -588,7 +593,7 @@ def case_thermal(case, ctx, pym):
     Phi[:dim] = 1.0
     t = 1.0 if dim == 3 else float(h[2])
     V = float(np.prod(h[:dim]))
-    fe_abs = alpha * t * float(np.sum(np.abs((D @ Phi)[:dim]) * V / h[:dim])) * 2.0   # sum_k |f_e,k|
+    fe_abs = abs(alpha) * t * float(np.sum(np.abs((D @ Phi)[:dim]) * V / h[:dim])) * 2.0   # sum_k |f_e,k|
 
     sxt = S("xt", x * dT)
     tm = pym.ThermoMechanical(sxt, domain=dom, e_modulus=E, poisson_ratio=nu, alpha=alpha, plane=plane)
